@@ -2457,3 +2457,60 @@ pub fn c07_closed_report(nd: &mut Nondet) {
         }
     }
 }
+
+// ------------------------------------------------------------------------------------------ C16 kademlia dial ledger kernel
+use litep2p::protocol::libp2p::kademlia::verif_hooks as kad;
+
+/// C16 (kernel): lookups that need a peer which must first be dialed: every started query gets exactly one
+/// terminal event when the dial fails, also when several queries wait for the same dial.
+pub fn c16_dial_ledger(nd: &mut Nondet) {
+    let mut manager = TransportManagerBuilder::new().build();
+    hooks::register_scripted_tcp(&mut manager, Box::new(move |_call: TransportCall| true));
+    // two known, unconnected peers
+    let peers = [nd.peer_id_fixed(1), nd.peer_id_fixed(2)];
+    let addresses = [peer_address(0, peers[0]), peer_address(1, peers[1])];
+    let n_known = 1 + nd.choose("known_peers", 2) as usize;
+    let mut known = Vec::new();
+    for i in 0..n_known { known.push((peers[i], addresses[i].clone())); }
+    let mut kernel = kad::new_kernel(&mut manager, known);
+
+    let mut started: Vec<QueryId> = Vec::new();
+    let mut finished: Vec<QueryId> = Vec::new();
+    let steps = param("steps", 4);
+    for _ in 0..steps {
+        match nd.choose("event", 2) {
+            0 => {
+                let t = 50 + nd.choose("target", 2) as u8;
+                let target = nd.peer_id_fixed(t);
+                let q = kad::start_find_node(&mut kernel, target);
+                check("c16k.query-ids-are-fresh", !started.contains(&q));
+                started.push(q);
+                cover("c16k.started");
+            }
+            _ => {
+                let i = nd.choose("failed_peer", n_known as u64) as usize;
+                if kad::waiting_for_dial(&kernel, &peers[i]) == 0 { assume(false); }
+                kad::dial_failure(&mut kernel, peers[i], addresses[i].clone());
+                cover("c16k.dial-failure");
+            }
+        }
+        check("c16k.handlers-never-suspend", kad::drive(&mut kernel));
+        for (q, _ok) in kad::terminal_events(&mut kernel) {
+            check("c16k.terminal-event-belongs-to-a-started-query", started.contains(&q));
+            check("c16k.at-most-one-terminal-event-per-query", !finished.contains(&q));
+            finished.push(q);
+        }
+    }
+    // quiescence: every dial has failed -> nothing can be outstanding any more
+    for i in 0..n_known {
+        if kad::waiting_for_dial(&kernel, &peers[i]) > 0 { kad::dial_failure(&mut kernel, peers[i], addresses[i].clone()); }
+    }
+    check("c16k.handlers-never-suspend", kad::drive(&mut kernel));
+    for (q, _ok) in kad::terminal_events(&mut kernel) {
+        check("c16k.at-most-one-terminal-event-per-query", !finished.contains(&q));
+        finished.push(q);
+    }
+    for i in 0..n_known { check("c16k.no-dial-left-after-all-failed", kad::waiting_for_dial(&kernel, &peers[i]) == 0); }
+    for q in started.iter() { check("c16k.every-query-ends-with-a-terminal-event", finished.contains(q)); }
+    cover("c16k.quiescent");
+}
